@@ -389,6 +389,11 @@ class Executor:
                 self.solver.add(v <= hi)
         return self.vars[name]
 
+    def axiom(self, c):
+        """a fact about modelled callees that holds on every path (e.g. `s.ends_with(t)` implies `len(s) >= len(t)`)"""
+        self.domains.append(c)
+        self.solver.add(c)
+
     def fresh_name(self, tag):
         self.fresh += 1
         return "%s#%d" % (tag, self.fresh)
@@ -757,6 +762,16 @@ class Executor:
         if k == "binop":
             a = self.scalar_of(state, self.eval_operand(state, frame, rv[2]))
             b = self.scalar_of(state, self.eval_operand(state, frame, rv[3]))
+            if rv[1].endswith("WithOverflow"):
+                # rustc's checked arithmetic: (wrapped result, overflowed?) - integers are mathematical here, so the flag is a range test on the exact result
+                if not all(isinstance(x, int) or (z3.is_expr(x) and z3.is_int(x)) for x in (a, b)):
+                    raise Inconclusive("checked arithmetic on values the executor cannot evaluate")
+                res = binop(rv[1][:-len("WithOverflow")], a, b)
+                m = re.match(r"\(\s*([iu])(\d+|size)", (dest_ty or "").strip())
+                signed, bits = (m.group(1) == "i", 64 if m.group(2) == "size" else int(m.group(2))) if m else (False, 64)
+                lo, hi = (-(2 ** (bits - 1)), 2 ** (bits - 1) - 1) if signed else (0, 2 ** bits - 1)
+                ovf = (res < lo or res > hi) if isinstance(res, int) else z3.Or(res < lo, res > hi)
+                return Agg("tuple", None, None, [res, ovf])
             return binop(rv[1], a, b)
         if k == "unop":
             a = self.eval_operand(state, frame, rv[2])
@@ -1044,6 +1059,8 @@ class Executor:
                 elif isinstance(c, bool) and (c == bool(term[1])):
                     self.finish(state, "panic", "assertion failed in " + self.qual.get(frame.fn.name, frame.fn.name))
                     return
+                elif c is None and self.check_panics:
+                    raise Inconclusive("assert on a condition the executor cannot evaluate in " + self.qual.get(frame.fn.name, frame.fn.name))
                 frame.block = term[3]["success"]
                 continue
             if k == "return":
@@ -2149,7 +2166,56 @@ def _collect_result(ex, state, frame, dest, fm, ret_block, work):
     return "done"
 
 
-PANIC_ONLY_MODELS = {"Option::unwrap", "Option::expect", "Result::unwrap", "Result::expect", "Index::Punctuated::index"}
+PANIC_ONLY_MODELS = {"Option::unwrap", "Option::expect", "Result::unwrap", "Result::expect", "Index::Punctuated::index", "str::len", "String::len", "str::ends_with", "str::starts_with",
+                     "Index::str::index", "Index::String::index"}
+
+
+def _strlen(ex, state, v):
+    v = _val(ex, state, v)
+    if isinstance(v, Agg) and v.kind == "str":
+        return len(v.extra.encode())
+    return ex.ivar("strlen(%s)" % ex.summ(state, v)[:120], 0, 2 ** 40)
+
+
+@model("str::len", "String::len")
+def m_str_len(ex, state, frame, dest, args, ret_block, work, callee):
+    return _ret(ex, state, frame, dest, _strlen(ex, state, args[0]), ret_block)
+
+
+@model("str::ends_with", "str::starts_with")
+def m_str_affix(ex, state, frame, dest, args, ret_block, work, callee):
+    a, b = _val(ex, state, args[0]), _val(ex, state, args[1])
+    if isinstance(a, Agg) and a.kind == "str" and isinstance(b, Agg) and b.kind == "str":
+        return _ret(ex, state, frame, dest, a.extra.endswith(b.extra) if normalize_callee(callee).endswith("ends_with") else a.extra.startswith(b.extra), ret_block)
+    sb = b.extra if isinstance(b, Agg) and b.kind == "str" else ex.summ(state, b)
+    r = ex.bvar("%s(%s,%s)" % (normalize_callee(callee).rsplit("::", 1)[1], ex.summ(state, a)[:120], sb[:60]))
+    # a string that ends / starts with another one is at least as long
+    la, lb = _strlen(ex, state, args[0]), _strlen(ex, state, args[1])
+    ex.axiom(z3.Implies(r, la >= lb) if not (isinstance(la, int) and isinstance(lb, int)) else z3.BoolVal(True))
+    return _ret(ex, state, frame, dest, r, ret_block)
+
+
+@model("Index::str::index", "Index::String::index")
+def m_str_index(ex, state, frame, dest, args, ret_block, work, callee):
+    """`s[a..b]` / `s[..b]` / `s[a..]`: out of range when an end lies beyond the length or the start beyond the end (char boundaries are not modelled)"""
+    rng = _val(ex, state, args[1])
+    n = _strlen(ex, state, args[0])
+    if not (isinstance(rng, Agg) and rng.fields is not None):
+        raise Inconclusive("string index with %r" % (rng,))
+    name = (rng.name or "") if isinstance(rng, Agg) else ""
+    vals = [ex.scalar_of(state, f) for f in rng.fields]
+    if "RangeTo" in name and len(vals) == 1:
+        bad = vals[0] > n
+    elif "RangeFrom" in name and len(vals) == 1:
+        bad = vals[0] > n
+    elif len(vals) == 2:
+        bad = z3.Or(vals[1] > n, vals[0] > vals[1]) if any(z3.is_expr(x) for x in vals + [n]) else (vals[1] > n or vals[0] > vals[1])
+    else:
+        raise Inconclusive("string index with %r" % (rng,))
+    if isinstance(bad, bool) or z3.is_expr(bad):
+        if not _panic_fork(ex, state, frame, bad, "%s out of range" % normalize_callee(callee)):
+            return "done"
+    return _ret(ex, state, frame, dest, Opaque(("call", normalize_callee(callee), (ex.summ(state, args[0])[:80],)), "&str"), ret_block)
 
 
 def _panic_fork(ex, state, frame, cond_bad, what):
